@@ -46,6 +46,8 @@ type Service struct {
 	// Probe, if set, is called at entry of every call (before anything else)
 	// with the sequence number assigned to the call.
 	Probe func(seq uint64, node, op string)
+	// After, if set, is called when a call has been decided, with its result.
+	After func(seq uint64, node, op, arg, result string)
 }
 
 func NewService(ttl time.Duration) *Service { return &Service{TTL: ttl} }
@@ -68,6 +70,9 @@ func (s *Service) record(seq uint64, node, op, arg, result string) {
 	s.mu.Lock()
 	s.calls = append(s.calls, Call{Seq: seq, Node: node, Op: op, Arg: arg, Result: result})
 	s.mu.Unlock()
+	if f := s.After; f != nil {
+		f(seq, node, op, arg, result)
+	}
 }
 
 // Calls returns a copy of the call log.
@@ -184,13 +189,15 @@ func (l *NodeLeaser) PrimaryInfo(ctx context.Context) (litefs.PrimaryInfo, error
 	}
 	s := l.svc
 	s.mu.Lock()
-	defer s.mu.Unlock()
 	if s.cur == nil || s.cur.expired || s.cur.released {
-		s.calls = append(s.calls, Call{Seq: seq, Node: l.node, Op: "primary-info", Result: "no-primary"})
+		s.mu.Unlock()
+		s.record(seq, l.node, "primary-info", "", "no-primary")
 		return litefs.PrimaryInfo{}, litefs.ErrNoPrimary
 	}
-	s.calls = append(s.calls, Call{Seq: seq, Node: l.node, Op: "primary-info", Result: "ok:" + s.cur.holder})
-	return s.cur.info, nil
+	info, holder := s.cur.info, s.cur.holder
+	s.mu.Unlock()
+	s.record(seq, l.node, "primary-info", "", "ok:"+holder)
+	return info, nil
 }
 
 func (l *NodeLeaser) ClusterID(ctx context.Context) (string, error) {
@@ -200,9 +207,10 @@ func (l *NodeLeaser) ClusterID(ctx context.Context) (string, error) {
 	}
 	s := l.svc
 	s.mu.Lock()
-	defer s.mu.Unlock()
-	s.calls = append(s.calls, Call{Seq: seq, Node: l.node, Op: "cluster-id", Result: s.clusterID})
-	return s.clusterID, nil
+	id := s.clusterID
+	s.mu.Unlock()
+	s.record(seq, l.node, "cluster-id", "", id)
+	return id, nil
 }
 
 func (l *NodeLeaser) SetClusterID(ctx context.Context, clusterID string) error {
@@ -213,8 +221,8 @@ func (l *NodeLeaser) SetClusterID(ctx context.Context, clusterID string) error {
 	s := l.svc
 	s.mu.Lock()
 	s.clusterID = clusterID
-	s.calls = append(s.calls, Call{Seq: seq, Node: l.node, Op: "set-cluster-id", Arg: clusterID, Result: "ok"})
 	s.mu.Unlock()
+	s.record(seq, l.node, "set-cluster-id", clusterID, "ok")
 	return nil
 }
 
